@@ -1,7 +1,4 @@
-use std::{
-    collections::{HashMap, HashSet, LinkedList},
-    mem::take,
-};
+use std::collections::{HashMap, HashSet, LinkedList};
 
 use cosmian_crypto_core::{
     bytes_ser_de::Serializable,
@@ -616,26 +613,35 @@ pub fn update_msk(
     msk: &mut MasterSecretKey,
     rights: HashMap<Right, (EncryptionHint, AttributeStatus)>,
 ) -> Result<(), Error> {
-    let mut secrets = take(&mut msk.secrets);
-    secrets.retain(|r| rights.contains_key(r));
-
-    for (r, (hint, status)) in rights {
-        if let Some((is_activated, coordinate_secret)) = secrets.get_latest_mut(&r) {
-            *is_activated = AttributeStatus::EncryptDecrypt == status;
-            if EncryptionHint::Classic == hint {
-                *coordinate_secret = coordinate_secret.drop_hybridization();
-            }
-        } else {
-            if AttributeStatus::DecryptOnly == status {
+    // All fallible steps are performed before modifying the MSK, so that a
+    // failed update leaves it untouched.
+    let mut new_secrets = Vec::new();
+    for (r, (hint, status)) in &rights {
+        if !msk.secrets.contains_key(r) {
+            if AttributeStatus::DecryptOnly == *status {
                 return Err(Error::OperationNotPermitted(
                     "cannot add decrypt only secret".to_string(),
                 ));
             }
-            let secret = RightSecretKey::random(rng, EncryptionHint::Hybridized == hint)?;
-            secrets.insert(r, (true, secret));
+            let secret = RightSecretKey::random(rng, EncryptionHint::Hybridized == *hint)?;
+            new_secrets.push((r.clone(), secret));
         }
     }
-    msk.secrets = secrets;
+
+    msk.secrets.retain(|r| rights.contains_key(r));
+
+    for (r, (hint, status)) in rights {
+        if let Some((is_activated, coordinate_secret)) = msk.secrets.get_latest_mut(&r) {
+            *is_activated = AttributeStatus::EncryptDecrypt == status;
+            if EncryptionHint::Classic == hint {
+                *coordinate_secret = coordinate_secret.drop_hybridization();
+            }
+        }
+    }
+
+    for (r, secret) in new_secrets {
+        msk.secrets.insert(r, (true, secret));
+    }
     Ok(())
 }
 
